@@ -441,6 +441,58 @@ EXTRA = {
            'on disk; whatever it accepts must be computable by _delay.',
 }
 
+# generator / oracle extensions of the third round of seeded changes
+ROUND3 = {
+    'C01': ' Worker messages reach the farm in generated piece sizes.',
+    'C02': ' Part faults: a dispatch may lose its run-ID request once '
+           '(db.next() fault). End-to-end part: an algorithm may file its '
+           'result under a sub-target (Dataset.retarget); everything '
+           'downstream must then exist for the sub-target as a from-scratch '
+           'evaluation gives it.',
+    'C03': ' Part faults: db.next() fails once during a dispatch; what the '
+           'scheduler counts as executing must be handed, queued or held by '
+           'the farm for its retry. Worker messages reach the farm in '
+           'generated piece sizes (1 byte .. one segment).',
+    'C04': ' Algorithms may override where() (cloud / cluster / auto) with no '
+           'cloud agency configured.',
+    'C05': ' The worker may also end with SystemExit / KeyboardInterrupt '
+           'inside the algorithm (outcome 3).',
+    'C06': ' Part held: a dataset is connected once and loaded repeatedly '
+           'while other datasets store for the same target and algorithm.',
+    'C08': ' Removal through the worm tool (dawgie.db.tools.worm.consume) '
+           'with run ID 0 and partially given names.',
+    'C09': ' Part layout: class-scanned packages that bring their own '
+           'factory function, packages that say DAWGIE_IGNORE = False, and '
+           'engines whose base package is nested (org.engine).',
+    'C10': ' The reload step runs the real RollbackImporter over the '
+           'generated engine; event newrev (a new revision of the engine '
+           'source is on disk before the reload); submissions that are '
+           'already applied.',
+    'C12': ' Requests whose client has gone away (finish() raises) must not '
+           'disturb the scheduling of the update.',
+    'C13': ' Client labels are generated (unique, shared, empty); part '
+           'client also runs a database copy (Worker._do_copy: acquire, '
+           'close + reopen the database, release) against queued waiters, '
+           'with the holder letting go at a generated phase of the poll '
+           'period.',
+    'C15': ' Algorithms may list a state vector that is empty until run; '
+           'what build() scheduled is drained batch by batch '
+           '(next_job_batch / complete) and the units handed out are '
+           'compared with the expected set.',
+    'C16': ' Packages may say DAWGIE_IGNORE = False or bring their own '
+           'factory; part cli: python -m dawgie.tools.compliant judges the '
+           'tree it is pointed at while another copy of the same package '
+           '(compliant or not) is importable from the spawning environment.',
+    'C18': ' Part append injects one transient OSError into an open() inside '
+           'an append; the caller retries and nothing may be lost.',
+    'C19': ' Static part: public files are replaced by links leading outside '
+           'between requests and every earlier request is repeated; '
+           'endpoints part: the client list is also loaded from real PEM '
+           'files by _tls_initialize (valid, all expired, mixed).',
+    'C20': ' History part: the algorithm engine is reloaded (schedule.build) '
+           'between events; a boot event fires once per process.',
+}
+
 NOT_YET = 'check not built yet in this session (planned, see DESIGN.md section 4)'
 
 
@@ -465,7 +517,7 @@ def main():
                 'engine': eng,
                 'level_claimed': {
                     'category': cat,
-                    'text': text + EXTRA.get(pid, ''),
+                    'text': text + EXTRA.get(pid, '') + ROUND3.get(pid, ''),
                     'design_ref': f'DESIGN.md section 4, {pid}',
                 },
                 'level_note': note,
